@@ -113,6 +113,35 @@ Definition hdr_multi_or_delims (h : hdrs) : bool :=
   existsb (fun kv => negb (Nat.eqb (length (snd kv)) 1) || has_any (fst kv) (58%N :: meta_delims)
                      || existsb (fun v => has_any v meta_delims) (snd kv)) h.
 
+(* ---- C18: where a redirect walk must end, read off the scripted origins alone ---- *)
+Inductive walk_end := WFinal (r : resp) | WLoop | WUnreachable | WUnclear.
+
+Definition script_first (sc : script) (h : str) : option behaviour :=
+  match find (fun p => str_eqb (fst p) h) sc with
+  | Some (_, b :: _) => Some b
+  | _ => None
+  end.
+
+Fixpoint spec_follow (fuel : nat) (sc : script) (u : url) (visited : list str) : walk_end :=
+  match fuel with
+  | O => WLoop
+  | S f =>
+    match script_first sc (u_host u) with
+    | Some (BResp r) =>
+      if is_redirect (rs_status r) then
+        let loc := parse_url (hget (rs_hdrs r) (bytes "location")) in
+        if nonempty (u_scheme loc) then
+          if str_in visited (url_string loc) then WLoop else spec_follow f sc loc (url_string loc :: visited)
+        else if has_prefix (u_path loc) [47%N] then
+          let nxt := mkUrl (u_scheme u) (u_host u) (u_path loc) (u_query loc) (u_force loc) in
+          if str_in visited (url_string nxt) then WLoop else spec_follow f sc nxt (url_string nxt :: visited)
+        else WUnclear   (* relative references: the property text does not fix the base *)
+      else WFinal r
+    | Some BErr => WUnreachable
+    | None => WUnreachable
+    end
+  end.
+
 (* one request of a history judged for property p; returns the verdict and the updated bookkeeping *)
 (* the client's validator with the configured suffix removed; None when the suffix is required and missing *)
 Definition spec_client_etag (sfx : option str) (inm : str) : option str :=
@@ -344,6 +373,27 @@ Definition judge (p : str) (sfx : option str) (rules : list rule) (expires : lis
       then verdict_kf false "a Range request on a cached resource was answered with a bare error"
                       ""%string
       else v_ok in
+  let v18 :=
+      match fst (rules_match rules (req_scheme_of q) (drop_port (q_host q)) (q_uri q) (q_method q)) with
+      | Some (_, r, t) =>
+        if negb (r_restart r) || negb is_get then v_ok else
+        let start := parse_url (out_url t (q_query q)) in
+        let kind := cobs_kind o in
+        if str_eqb kind (bytes "no-response") || str_eqb kind (bytes "recovered")
+        then verdict false "a redirect walk did not end in a response"
+        else if Nat.ltb 12 (length (cobs_log o)) then verdict false "more than a bounded number of hops were followed"
+        else
+          match spec_follow 14 (w_script w) start [url_string start] with
+          | WFinal fr =>
+            if str_eqb kind (bytes "origin") && (cobs_status o =? rs_status fr) && str_eqb (cobs_body o) (rs_body fr) then v_ok
+            else verdict false "the client did not receive the final non-redirect response of the chain"
+          | WLoop => if (400 <=? cobs_status o) && negb (str_eqb kind (bytes "origin")) then v_ok
+                     else verdict false "a redirect loop did not end in an error response"
+          | WUnreachable => if 400 <=? cobs_status o then v_ok else verdict false "an unreachable hop did not end in an error response"
+          | WUnclear => v_ok
+          end
+      | None => v_ok
+      end in
   let v_done := if str_eqb (cobs_kind o) (bytes "no-response")
                 then verdict false "the request never completed (unbounded internal recursion against the origin)" else v_ok in
   let v := if str_eqb p (bytes "C08") then first_fail [v_done; v08]
@@ -352,6 +402,7 @@ Definition judge (p : str) (sfx : option str) (rules : list rule) (expires : lis
            else if str_eqb p (bytes "C09") then first_fail [v09; v09b]
            else if str_eqb p (bytes "C05") then first_fail [v_done; v05]
            else if str_eqb p (bytes "C15") then v15
+           else if str_eqb p (bytes "C18") then v18
            else v_ok in
   (v, mkW now sc' store' (cobs_disk o) forbidden').
 
